@@ -86,6 +86,20 @@ Fixpoint sel_spread_free (x : selection) : bool :=
   end.
 Definition spread_free (ss : list selection) : bool := forallb sel_spread_free ss.
 
+(* named-fragment spreads only at the top level of the selection list, of
+   fragments whose own selections are spread-free (no spread inside a
+   fragment or inside an inline fragment) *)
+Definition top_spreads (frags : frag_table) (ss : list selection) : bool :=
+  forallb (fun x => match x with
+                    | SField _ _ _ _ _ _ _ => true
+                    | SInline _ _ _ sub _ => spread_free sub
+                    | SSpread n _ _ =>
+                        match alookup (n_val n) frags with
+                        | Some (_, fsels) => spread_free fsels
+                        | None => true
+                        end
+                    end) ss.
+
 (* ------------------------------------------------------- response paths *)
 (* the value found in a response at a (relative) path *)
 Fixpoint at_path (v : pv) (q : path) : option pv :=
